@@ -305,6 +305,34 @@ func untransposeExtract(a Matrix) (Matrix, bool) {
 	}
 }
 
+// atOnly hides every method of a matrix except those of Matrix.
+type atOnly struct{ Matrix }
+
+// hideUnsupportedRaw returns a unchanged unless it exposes BLAS storage that
+// the Raw fast paths do not handle (a symmetric matrix stored in the lower
+// triangle). In that case a is returned inside a type that exposes only the
+// Matrix methods, so that the generic element-wise path is taken.
+func hideUnsupportedRaw(a Matrix) Matrix {
+	switch m := a.(type) {
+	case RawSymmetricer:
+		if m.RawSymmetric().Uplo != blas.Upper {
+			return atOnly{a}
+		}
+	}
+	return a
+}
+
+// rawUpperSymmetric returns the BLAS representation of a if it has one that
+// is stored in the upper triangle.
+func rawUpperSymmetric(a Matrix) (blas64.Symmetric, bool) {
+	if r, ok := a.(RawSymmetricer); ok {
+		if m := r.RawSymmetric(); m.Uplo == blas.Upper {
+			return m, true
+		}
+	}
+	return blas64.Symmetric{}, false
+}
+
 // TODO(btracey): Consider adding CopyCol/CopyRow if the behavior seems useful.
 // TODO(btracey): Add in fast paths to Row/Col for the other concrete types
 // (TriDense, etc.) as well as relevant interfaces (RowColer, RawRowViewer, etc.)
@@ -469,6 +497,7 @@ func Equal(a, b Matrix) bool {
 	}
 	aU, aTrans := untranspose(a)
 	bU, bTrans := untranspose(b)
+	aU, bU = hideUnsupportedRaw(aU), hideUnsupportedRaw(bU)
 	if rma, ok := aU.(RawMatrixer); ok {
 		if rmb, ok := bU.(RawMatrixer); ok {
 			ra := rma.RawMatrix()
@@ -541,6 +570,7 @@ func EqualApprox(a, b Matrix, epsilon float64) bool {
 	}
 	aU, aTrans := untranspose(a)
 	bU, bTrans := untranspose(b)
+	aU, bU = hideUnsupportedRaw(aU), hideUnsupportedRaw(bU)
 	if rma, ok := aU.(RawMatrixer); ok {
 		if rmb, ok := bU.(RawMatrixer); ok {
 			ra := rma.RawMatrix()
@@ -625,6 +655,7 @@ func Max(a Matrix) float64 {
 	}
 	// Max(A) = Max(Aᵀ)
 	aU, _ := untranspose(a)
+	aU = hideUnsupportedRaw(aU)
 	switch m := aU.(type) {
 	case RawMatrixer:
 		rm := m.RawMatrix()
@@ -701,6 +732,7 @@ func Min(a Matrix) float64 {
 	}
 	// Min(A) = Min(Aᵀ)
 	aU, _ := untranspose(a)
+	aU = hideUnsupportedRaw(aU)
 	switch m := aU.(type) {
 	case RawMatrixer:
 		rm := m.RawMatrix()
@@ -874,6 +906,7 @@ func Sum(a Matrix) float64 {
 	}
 	var sum float64
 	aU, _ := untranspose(a)
+	aU = hideUnsupportedRaw(aU)
 	switch rma := aU.(type) {
 	case RawSymmetricer:
 		rm := rma.RawSymmetric()
